@@ -235,7 +235,7 @@ def src_line(loc, cache):
 _clause_cache = {}
 
 
-def clause_names(pid, func):
+def clause_names(pid, func, exact=False):
     """names of the X("name", cond) entries of '#define POST_<func>(X, ...)' in the property's contract files"""
     key = (pid, func)
     if key in _clause_cache:
@@ -248,7 +248,7 @@ def clause_names(pid, func):
             if not fn.endswith(('.c', '.h')):
                 continue
             text = open(os.path.join(d, fn), errors='replace').read()
-            m = re.search(r'#\s*define\s+POST_' + re.escape(func) + r'\s*\(', text)
+            m = re.search(r'#\s*define\s+' + ('' if exact else 'POST_') + re.escape(func) + r'\s*\(', text)
             if not m:
                 continue
             body = []
@@ -516,7 +516,7 @@ def run_unit(pid, unit, tier, keep=False, verbose=False):
                 loc = r.get('sourceLocation', {})
                 mm = re.match(r'^(\w+)\.postcondition\.(\d+)$', r.get('property') or '')
                 if mm:
-                    cn = clause_names(pid, mm.group(1))
+                    cn = clause_names(pid, mm.group(1)) or clause_names(pid, unit.get('post_macro', '-'), exact=True)
                     i = int(mm.group(2)) - 1
                     if 0 <= i < len(cn):
                         desc = 'ensures: %s (%s)' % (cn[i], desc)
@@ -689,7 +689,8 @@ def main(argv):
     for line in vio_lines[:12]:
         print(line)
     for u, r in inconcl:
-        log('INCONCLUSIVE unit %s: %s' % (u['name'], r['reason'][:1500]))
+        if not a.v:
+            log('INCONCLUSIVE unit %s: %s' % (u['name'], r['reason'][:1500]))
 
     wall = time.time() - t0
     if not a.no_evidence and not a.unit:
